@@ -779,4 +779,93 @@ WITNESSES = [{'id': 'c01-table-general',
              '                    isinstance(factor.base, FermionicOperator):\n'
              '                # a_p a_p = a^+_p a^+_p = 0\n'
              '                return S.Zero\n',
-             '            elif operator_power(factor):\n                return S.Zero\n')]}]
+             '            elif operator_power(factor):\n                return S.Zero\n')]},
+ {'id': 'c01-contraction-lru-cache',
+  'prop': 'C01',
+  'file': 'func.py',
+  'expect': 'R01a',
+  'edits': [('from itertools import product\n', 'from functools import lru_cache\nfrom itertools import product\n'),
+            ('        raise NotImplementedError("Contraction not implemented for indices "\n'
+             '                                  "with spin.")\n',
+             '        raise NotImplementedError("Contraction not implemented for indices "\n'
+             '                                  "with spin.")\n'
+             '    return _evaluate_contraction(p, q)\n'
+             '\n'
+             '\n'
+             '@lru_cache(maxsize=None)\n'
+             'def _evaluate_contraction(p, q):\n')]},
+ {'id': 'c01-contraction-module-table',
+  'prop': 'C01',
+  'file': 'func.py',
+  'expect': 'R01a',
+  'edits': [('def _contraction(p, q):', '_CONTRACTIONS = {}\n\n\ndef _contraction(p, q):'),
+            ('        raise NotImplementedError("Contraction not implemented for indices "\n'
+             '                                  "with spin.")\n',
+             '        raise NotImplementedError("Contraction not implemented for indices "\n'
+             '                                  "with spin.")\n'
+             '    if (p, q) not in _CONTRACTIONS:\n'
+             '        _CONTRACTIONS[(p, q)] = _evaluate_contraction(p, q)\n'
+             '    return _CONTRACTIONS[(p, q)]\n'
+             '\n'
+             '\n'
+             'def _evaluate_contraction(p, q):\n')]},
+ {'id': 'c01-ok-contraction-cached-decision',
+  'prop': 'C01',
+  'file': 'func.py',
+  'expect': None,
+  'edits': [('from itertools import product\n', 'from functools import lru_cache\nfrom itertools import product\n'),
+            ('    # get the space and ensure we have no unexpected space\n'
+             '    p_idx, q_idx = p.args[0], q.args[0]\n'
+             '    space_p, space_q = p_idx.space[0], q_idx.space[0]\n'
+             '    assert space_p in ["o", "v", "g"] and space_q in ["o", "v", "g"]\n'
+             '\n'
+             '    if isinstance(p, F) and isinstance(q, Fd):\n'
+             '        if space_p == "o" or space_q == "o":\n'
+             '            return S.Zero\n'
+             '        elif space_p == "v" or space_q == "v":\n'
+             '            return KroneckerDelta(p_idx, q_idx)\n'
+             '        else:\n'
+             '            # use a registered generic index: its name is unique, i.e., it\n'
+             '            # can not be confused with any other index when the result is\n'
+             '            # printed (and imported again)\n'
+             '            a = Indices().get_generic_indices(virt=1)[("virt", "")][0]\n'
+             '            return (KroneckerDelta(p_idx, q_idx) *\n'
+             '                    KroneckerDelta(q_idx, a))\n'
+             '    elif isinstance(p, Fd) and isinstance(q, F):\n'
+             '        if space_p == "v" or space_q == "v":\n'
+             '            return S.Zero\n'
+             '        elif space_p == "o" or space_q == "o":\n'
+             '            return KroneckerDelta(p_idx, q_idx)\n'
+             '        else:\n'
+             '            i = Indices().get_generic_indices(occ=1)[("occ", "")][0]\n'
+             '            return (KroneckerDelta(p_idx, q_idx) *\n'
+             '                    KroneckerDelta(q_idx, i))\n'
+             '    else:  # vanish if 2xAnnihilator or 2xCreator\n'
+             '        return S.Zero\n',
+             '    p_idx, q_idx = p.args[0], q.args[0]\n'
+             '    case = _contraction_case(isinstance(p, F), isinstance(p, Fd), isinstance(q, F), isinstance(q, Fd),\n'
+             '                             p_idx.space, q_idx.space)\n'
+             '    if case is None:\n'
+             '        return S.Zero\n'
+             '    contraction = KroneckerDelta(p_idx, q_idx)\n'
+             '    if case:  # two general indices: additional index, drawn per call\n'
+             '        (extra,), = Indices().get_generic_indices(**{case: 1}).values()\n'
+             '        contraction = contraction * KroneckerDelta(q_idx, extra)\n'
+             '    return contraction\n'
+             '\n'
+             '\n'
+             '@lru_cache(maxsize=None)\n'
+             'def _contraction_case(p_annihilates: bool, p_creates: bool, q_annihilates: bool, q_creates: bool,\n'
+             '                      space_p: str, space_q: str) -> str | None:\n'
+             '    """None: vanishing contraction, \'\': a single delta, \'occ\'/\'virt\': space of the additional index."""\n'
+             '    assert space_p[0] in "ovg" and space_q[0] in "ovg"\n'
+             '    spaces = (space_p, space_q)\n'
+             '    if p_annihilates and q_creates:\n'
+             '        killed, kept = "occ", "virt"\n'
+             '    elif p_creates and q_annihilates:\n'
+             '        killed, kept = "virt", "occ"\n'
+             '    else:\n'
+             '        return None\n'
+             '    if killed in spaces:\n'
+             '        return None\n'
+             '    return "" if kept in spaces else kept\n')]}]
